@@ -409,3 +409,155 @@ Section Full.
     split; [exact A|]. split; [exact B|]. intros n Hn. apply C. now apply in_map.
   Qed.
 End Full.
+
+(* ================================================================== the bridging hypothesis `cur s = enc t` discharged:
+   valid UTF-8 is preserved by well-formed edit batches whose replacement strings are valid UTF-8 *)
+Lemma utf8_tail_cont c b r : utf8 c = b :: r -> Forall (fun x => is_lead x = false) r.
+Proof.
+  unfold utf8. destruct (c <? 128)%N; [|destruct (c <? 2048)%N; [|destruct (c <? 65536)%N]]; intros H; inversion H; subst;
+    repeat constructor; apply cont_byte.
+Qed.
+
+Lemma is_boundary_app_r x y i : is_boundary (x ++ y) (length x + i) = is_boundary y i.
+Proof.
+  unfold is_boundary. rewrite nth_error_app2 by lia. replace (length x + i - length x) with i by lia.
+  destruct (nth_error y i); [reflexivity|]. rewrite app_length.
+  destruct (Nat.eqb_spec i (length y)), (Nat.eqb_spec (length x + i) (length x + length y)); auto; lia.
+Qed.
+
+Lemma enc_boundary_inv : forall t a, is_boundary (enc t) a = true -> exists pre post, t = pre ++ post /\ a = length (enc pre).
+Proof.
+  induction t as [|c t IH]; intros a H.
+  - unfold is_boundary in H. destruct a; cbn in H; [|discriminate]. exists [], []. auto.
+  - destruct a as [|a]; [exists [], (c :: t); auto|].
+    cbn [enc flat_map] in H. fold (enc t) in H.
+    destruct (utf8_shape c) as (b & r & Hu & Hl & _). pose proof (utf8_tail_cont c b r Hu) as Hr.
+    destruct (Nat.ltb_spec (S a) (length (utf8 c))) as [Hlt|Hge].
+    + exfalso. unfold is_boundary in H. rewrite nth_error_app1 in H by exact Hlt. rewrite Hu in H, Hlt. cbn [nth_error length] in H, Hlt.
+      destruct (nth_error r a) as [x|] eqn:E; [|apply nth_error_None in E; lia].
+      rewrite Forall_forall in Hr. rewrite (Hr x (nth_error_In _ _ E)) in H. discriminate.
+    + replace (S a) with (length (utf8 c) + (S a - length (utf8 c))) in H by lia.
+      rewrite is_boundary_app_r in H. destruct (IH _ H) as (pre & post & -> & Ha).
+      exists (c :: pre), post. split; [reflexivity|]. cbn [enc flat_map]. fold (enc pre). rewrite app_length. lia.
+Qed.
+
+Lemma enc_prefix_cmp : forall p1 p2 r1 r2, p1 ++ r1 = p2 ++ r2 -> length (enc p1) <= length (enc p2) -> exists m, p2 = p1 ++ m.
+Proof.
+  induction p1 as [|c p1 IH]; intros p2 r1 r2 He Hl; [exists p2; reflexivity|].
+  destruct (utf8_shape c) as (b & r & Hu & _ & _).
+  destruct p2 as [|c' p2].
+  - cbn [enc flat_map length] in Hl. rewrite app_length, Hu in Hl. cbn in Hl. lia.
+  - cbn [app] in He. injection He as <- He. cbn [enc flat_map] in Hl. rewrite !app_length in Hl.
+    destruct (IH p2 r1 r2 He) as (m & ->); [unfold enc; lia|]. exists m. reflexivity.
+Qed.
+
+(* the bytes between two character boundaries of an encoded text are the encoding of the characters between them *)
+Lemma enc_slice t a b : is_boundary (enc t) a = true -> is_boundary (enc t) b = true -> a <= b ->
+  exists m, firstn (b - a) (skipn a (enc t)) = enc m.
+Proof.
+  intros Ha Hb Hab. destruct (enc_boundary_inv _ _ Ha) as (p1 & r1 & E1 & La). destruct (enc_boundary_inv _ _ Hb) as (p2 & r2 & E2 & Lb).
+  destruct (enc_prefix_cmp p1 p2 r1 r2) as (m & ->); [congruence | lia|].
+  exists m. rewrite E2, <- app_assoc, !enc_app. subst a b. rewrite enc_app, app_length.
+  rewrite skipn_app, skipn_all, Nat.sub_diag. cbn [skipn app].
+  replace (length (enc p1) + length (enc m) - length (enc p1)) with (length (enc m)) by lia.
+  rewrite firstn_app, firstn_all, Nat.sub_diag. cbn [firstn]. apply app_nil_r.
+Qed.
+
+Section Utf8.
+  Variable cfg : bcfg.
+  Hypothesis Hcfg : cfg_ok cfg = true.
+
+  Definition utf8_edits (es : list edit) : Prop := Forall (fun e => exists w, e_w e = enc w) es.
+
+  Lemma resolve_utf8 : forall ts smap edits start cl t m l,
+    length smap = length (enc ts) + 1 -> start <= length (enc ts) -> is_boundary (enc ts) start = true ->
+    edits_ok_from (enc ts) start edits = true -> utf8_edits edits ->
+    resolve cfg (enc ts) smap edits start cl = ROk t m l -> exists tt, t = enc tt.
+  Proof.
+    intros ts smap edits. set (src := enc ts). induction edits as [|e rest IH]; intros start cl t m l Hlen Hst Hbst Hok Hu Hres.
+    - cbn [resolve] in Hres. unfold str_slice, vec_slice in Hres.
+      rewrite Hbst, is_boundary_len in Hres.
+      assert (E1 : (start <=? length src) = true) by (apply Nat.leb_le; lia).
+      assert (E2 : (start <=? length smap) = true) by (apply Nat.leb_le; lia).
+      rewrite E1, E2, !Nat.leb_refl in Hres. cbn [andb] in Hres. inversion Hres; subst.
+      apply enc_slice; [exact Hbst | apply is_boundary_len | exact Hst].
+    - cbn [edits_ok_from] in Hok. repeat rewrite andb_true_iff in Hok.
+      destruct Hok as [[[[[[Hs1 Hs2] Hs3] Hbs] Hbe] Hw] Hrest].
+      apply Nat.leb_le in Hs1, Hs2, Hs3.
+      cbn [resolve] in Hres. unfold str_slice, vec_slice in Hres. rewrite Hbst, Hbs in Hres.
+      assert (E1 : (start <=? e_s e) = true) by (apply Nat.leb_le; lia).
+      assert (E2 : (e_s e <=? length src) = true) by (apply Nat.leb_le; lia).
+      assert (E3 : (e_s e <=? length smap) = true) by (apply Nat.leb_le; lia).
+      rewrite E1, E2, E3 in Hres. cbn [andb] in Hres.
+      destruct (add_replace cfg smap (e_s e) (e_e e) (e_w e)) as [[[rb rm] delta]|] eqn:Ear; [|discriminate].
+      destruct (cmp_eval (c_resolve_cmp cfg) (cl + delta) (Z.of_N (c_resolve_limit cfg))); [discriminate|].
+      destruct (resolve cfg src smap rest (e_e e) (cl + delta)) as [t' m' l'| |] eqn:Erec; try discriminate.
+      inversion Hres; subst t m l; clear Hres.
+      inversion Hu as [|e' rest' (w & Hew) Hu']; subst.
+      destruct (IH _ _ _ _ _ Hlen Hs3 Hbe Hrest Hu' Erec) as (tt & ->).
+      destruct (add_replace_spec cfg Hcfg _ _ _ _ _ _ _ Ear) as (-> & _ & _).
+      destruct (enc_slice ts start (e_s e) Hbst Hbs Hs1) as (a & Ha). fold src in Ha. rewrite Ha.
+      exists (a ++ w ++ tt). rewrite Hew, !enc_app. reflexivity.
+  Qed.
+
+  (* reachable from a valid UTF-8 original by well-formed batches of edits with valid UTF-8 replacement strings
+     (InputEditor::replace_* take &str / char / String) *)
+  Inductive ReachU (o : list N) : buf -> Prop :=
+  | RU_start s : start_build cfg o = Ok s -> ReachU o s
+  | RU_commit s es s' : ReachU o s -> edits_ok (cur s) es = true -> utf8_edits es -> commit cfg s es = Ok s' ->
+      cur s' <> [] -> ReachU o s'.
+
+  Lemma reachU_reach o s : ReachU o s -> Reach cfg o s.
+  Proof. induction 1; [now apply R_start | eapply R_commit; eauto]. Qed.
+
+  Lemma enc_wf t : wf_text (enc t) = true.
+  Proof. destruct t as [|c t]; [reflexivity|]. cbn [enc flat_map]. destruct (utf8_shape c) as (b & r & -> & Hl & _). exact Hl. Qed.
+
+  Theorem reachU_utf8 t0 s : ReachU (enc t0) s -> exists t, cur s = enc t.
+  Proof.
+    intros H. remember (enc t0) as o eqn:Eo. induction H as [s Hs | s es s' HR IH Hok Hu Hc Hne].
+    - destruct (cfg_fields cfg Hcfg) as (Hf & He & _). unfold start_build in Hs.
+      destruct (cmp_eval _ _ _); [discriminate|]. inversion Hs; subst. exists t0. reflexivity.
+    - destruct IH as (ts & Hts).
+      pose proof (reach_inv cfg Hcfg o s ltac:(subst o; apply enc_wf) (reachU_reach _ _ HR)) as (_ & HB & _).
+      pose proof (BMap_length _ _ _ HB) as Hlen.
+      unfold commit in Hc. destruct es as [|e es]; [inversion Hc; subst; eauto|].
+      destruct (resolve cfg (cur s) (m2o s) (e :: es) 0 (Z.of_nat (length (cur s)))) as [t m l| |] eqn:Er; try discriminate.
+      2:{ destruct (cmp_eval _ _ _); discriminate. }
+      destruct (cmp_eval _ _ _); [discriminate|]. inversion Hc; subst s'; clear Hc. cbn [cur].
+      rewrite Hts in Er, Hlen, Hok.
+      eapply (resolve_utf8 ts (m2o s) (e :: es) 0); [exact Hlen | lia | | exact Hok | exact Hu | exact Er].
+      apply is_boundary_0, enc_wf.
+  Qed.
+
+  Variable conn : N -> N -> Z.
+
+  (* the end-to-end statement without the bridging hypothesis: the original is the UTF-8 encoding of some text and the
+     input-text plugins submit UTF-8 replacement strings; the code-point view t of the rewritten text exists *)
+  Theorem pipeline_partitions_original_utf8 t0 s :
+    ReachU (enc t0) s ->
+    exists t, cur s = enc t /\
+    forall ns r i c,
+      nodes_ok (nchars (cur s)) ns -> (0 < nchars (cur s))%nat ->
+      connect_eos conn (insert_all conn (reset (nchars (cur s))) ns) = Some (r, i, c) ->
+      exists es p,
+        top_path conn (insert_all conn (reset (nchars (cur s))) ns) = Some es /\
+        map enode es = map Some p /\ path_cost conn p = c /\
+        forall pr pls q ps hw key ua ub m,
+          Forall2 (rnode_of (cur s)) p pr ->
+          Rewrite.run_plugins pls pr = Some (Rewrite.Ok q) ->
+          Forall2 snode_of q ps ->
+          Split.split_facts_ok = true -> mode_wf hw key t ua ub m ps ->
+          exists final,
+            Split.tokenize_mode hw t ua ub m ps = Some final /\
+            let ranges := map (map_range (m2o s)) (map sbytes final) in
+            partition_b (enc t0) ranges = true /\
+            concat (map (byte_slice (enc t0)) ranges) = enc t0 /\
+            (forall n, In n final ->
+               orig_slice s (fst (sbytes n)) (snd (sbytes n)) = Some (byte_slice (enc t0) (map_range (m2o s) (sbytes n)))).
+  Proof.
+    intros HR. destruct (reachU_utf8 t0 s HR) as (t & Ht). exists t. split; [exact Ht|].
+    intros ns r i c Hok Hpos Heos.
+    exact (pipeline_partitions_original cfg Hcfg conn (enc t0) s t ns r i c (enc_wf t0) (reachU_reach _ _ HR) Ht Hok Hpos Heos).
+  Qed.
+End Utf8.
